@@ -191,7 +191,12 @@ func runIdxKeyType(c *core.Ctx) {
 				return
 			}
 			n++
-			t := types.TypeString(an.Unwrap(v).Type(), nil)
+			// the dynamic type stored in the interface: strip the boxing only
+			tv := v
+			if mi, ok := tv.(*ssa.MakeInterface); ok {
+				tv = mi.X
+			}
+			t := types.TypeString(tv.Type(), nil)
 			if byWhat[k] == nil {
 				byWhat[k] = map[string][]string{}
 			}
